@@ -69,7 +69,7 @@ def _inline_once(ctx, body, should_inline, origin_path, chain):
         tg = c.target
         if tg.path == origin_path or tg.path in chain or tg.path == body.path:
             continue
-        if len(tg.blocks) > 80 or not should_inline(tg):
+        if len(tg.blocks) > 250 or not should_inline(tg):
             continue
         t = body.blocks[c.bb]["term"]
         if t["k"] != "call" or len(t["args"]) != tg.arg_count:
